@@ -22,10 +22,11 @@ except ImportError:      # run as a script (python3 checks/c11.py refcheck ...)
 
 PROP = 'C11'
 QUICK = ['gen/MC_C11atoms_q.cfg', 'gen/MC_C11scope_q.cfg', 'gen/MC_C11uneval_q.cfg', 'gen/MC_C11refs_q.cfg', 'gen/MC_C11nest1_q.cfg', 'gen/MC_C11pairs_q.cfg',
-         'gen/MC_C11frac_q.cfg', 'gen/MC_C11fracnest_q.cfg']
+         'gen/MC_C11frac_q.cfg', 'gen/MC_C11fracnest_q.cfg', 'gen/MC_C11pat_q.cfg', 'gen/MC_C11patnest_q.cfg']
 CFG = {'quick': QUICK,
        'thorough': QUICK + ['gen/MC_C11pairs_t.cfg', 'gen/MC_C11uneval2_t.cfg', 'gen/MC_C11uneval3_t.cfg', 'gen/MC_C11sib_t.cfg', 'gen/MC_C11triples_t.cfg',
-                            'gen/MC_C11nest2_t.cfg', 'gen/MC_C11refs2_t.cfg', 'gen/MC_C11fracsib3_t.cfg', 'gen/MC_C11fracfull_t.cfg', 'gen/MC_C11fracnest2_t.cfg']}
+                            'gen/MC_C11nest2_t.cfg', 'gen/MC_C11refs2_t.cfg', 'gen/MC_C11fracsib3_t.cfg', 'gen/MC_C11fracfull_t.cfg', 'gen/MC_C11fracnest2_t.cfg',
+                            'gen/MC_C11pat2_t.cfg', 'gen/MC_C11patnestfull_t.cfg']}
 IDENT_CFG = 'gen/MC_C11ident.cfg'      # model-internal identities, no emission
 BASE_CFG = 'gen/MC_C11base.cfg'
 VALID_CFG = 'gen/MC_C11valid.cfg'
@@ -173,13 +174,22 @@ def run(tier):
                    '(atoms: one keyword from the full alphabet; nest1: one keyword then one Nest through every in-place / child / reference wrapper; '
                    'pairs: two sibling keywords; uneval: annotation-producing keyword, in-place wrapper, unevaluated* keyword; refs: definitions, references, '
                    'anchors, recursion; frac / fracnest: a numeric keyword, enum or const with a non-integral constant (x.5, x.25, x.75, 1.1, 0.33, 0.1, 0.01) or an '
-                   'integer-valued decimal (1.0, 2.0), then a numeric / type sibling or one Nest through every wrapper; thorough adds triples, two Nest levels, '
-                   'siblings after Nest, doubly nested unevaluated*, references under nesting, fractional keyword x full alphabet / two siblings / two Nest levels) x '
+                   'integer-valued decimal (1.0, 2.0), then a numeric / type sibling or one Nest through every wrapper; pat / patnest: "patternProperties" over the '
+                   'literal pattern vocabulary [^]letters[$] ("^a" prefix, "b$" suffix, "^a$" equality, "a" occurrence, "" every name, two-letter literals; one and two '
+                   'patterns; subschemas that assert on the value and subschemas that evaluate members INSIDE the value: properties / additionalProperties / nested '
+                   'patternProperties / unevaluatedProperties), bare and behind allOf / anyOf / not / if / $ref, then a sibling properties / additionalProperties / '
+                   'unevaluatedProperties / required / propertyNames; a core keyword as the subschema of a pattern (9 wrapper shapes incl. beside properties, '
+                   'additionalProperties, unevaluatedProperties); patternProperties is also a member of the full alphabet (atoms, nest1), of the annotation '
+                   'alphabets of uneval / scope and a child wrapper of every Nest; thorough adds triples, two Nest levels, '
+                   'siblings after Nest, doubly nested unevaluated*, references under nesting, fractional keyword x full alphabet / two siblings / two Nest levels, '
+                   'pattern keyword + sibling inside every in-place wrapper below unevaluated*, full alphabet below a pattern) x '
                    'every instance of the base universe (incl. 1.0, 1.5, [1, 1.0], {"a": 1.0}) and the instances steered from the constants of the schema '
                    '(numeric bound c: floor(c)-1, floor(c), ceil(c), ceil(c)+1, floor / ceil as x.0 decimals, c, c-0.5, c+0.5, c-+0.25 and the other spelling '
                    'of a decimal c; divisor b: b, 2b, 3b, -b, b/2, 3b/2, b+0.5, b+1, 0, 0.0; enum/const values in both numeric spellings (1 / 1.0, 2.5 / 2.50); '
                    'arrays mixing spellings for uniqueItems; 0.0, -1.0, 2.0 for a numeric type; sizes c-1, c, c+1; '
-                   'required members present/absent, one level down through every applicator) x 6 presentations (json, ojson, member order reversed / '
+                   'required members present/absent; for every pattern its literal alone and with a letter before / after / around it as member names; in the pattern '
+                   'plans 29 objects whose names match 0 / 1 / 2 patterns or whose nested object repeats a member name of the enclosing object; '
+                   'one level down through every applicator) x 6 presentations (json, ojson, member order reversed / '
                    'alternating, "$schema" vs default_version, verdict-neutral options) x entry points; one case = one (dialect, schema); '
                    'distinct_nontrivial counts the distinct (dialect, schema, instance) triples with a defined verdict that were executed, evaluations '
                    'counts the individual library calls compared; plus the reference-resolution family (spec/Uri.tla, RFC 3986 section 5.2): 14 base URIs x '
@@ -192,7 +202,7 @@ def run(tier):
     cov['dont_care_multipleOf_floating_point_instances'] = totals.get('fp_dontcare_instances', 0)
     rep.assumptions += ['numbers are small integers and decimals with one or two fraction digits, handed to the library as int64 and as the nearest double; '
                         '(instance, divisor) pairs of multipleOf that are not both multiples of 1/4 (result depends on binary floating-point rounding) are run but '
-                        'their verdict is not compared; strings are code-point sequences; regular expressions, format, content*, remote references, '
+                        'their verdict is not compared; strings are code-point sequences; "pattern", patternProperties patterns other than [^]lower-case-letters[$], format, content*, remote references, '
                         '$dynamicRef/$recursiveRef are outside the modelled vocabulary; a base-URI changing $id is exercised by the reference-resolution family only',
                         '(schema, instance) pairs whose evaluation would not terminate (reference cycles without instance descent) are never run',
                         'Draft 2019-09 schemas that combine "contains" and "unevaluatedItems" are a declared dont-care class (the specification text and the reference validator disagree)']
@@ -222,11 +232,16 @@ def replay(path):
 
 SUITE = '/repo/test/jsonschema/JSON-Schema-Test-Suite/tests'
 DRAFTS = {'draft4': 'd4', 'draft6': 'd6', 'draft7': 'd7', 'draft2019-09': 'd2019', 'draft2020-12': 'd2020'}
-UNSUPPORTED = {'pattern', 'patternProperties', 'format', '$recursiveRef', '$recursiveAnchor', '$dynamicRef', '$dynamicAnchor',
+UNSUPPORTED = {'pattern', 'format', '$recursiveRef', '$recursiveAnchor', '$dynamicRef', '$dynamicAnchor',
                '$vocabulary', 'contentEncoding', 'contentMediaType', 'contentSchema', '$schema', 'extends', 'disallow', 'divisibleBy',
                'propertyDependencies'}
-SKIP_FILES = {'format.json', 'pattern.json', 'patternProperties.json', 'refRemote.json', 'id.json', 'vocabulary.json', 'dynamicRef.json',
+SKIP_FILES = {'format.json', 'pattern.json', 'refRemote.json', 'id.json', 'vocabulary.json', 'dynamicRef.json',
               'recursiveRef.json', 'content.json', 'unknownKeyword.json', 'infinite-loop-detection.json', 'default.json'}
+
+
+# the pattern vocabulary of spec/JsonSchema.tla (section "Patterns"): [ "^" ] lower-case letters [ "$" ]
+import re as _re
+LITERAL_PATTERN = _re.compile(r'\A\^?[a-z]*\$?\Z')
 
 
 class Skip(Exception):
@@ -282,6 +297,10 @@ def check_supported(s, d, top=True):
             raise Skip('base URI change')
         if k == '$ref' and isinstance(v, str) and (not v.startswith('#') or '%' in v):
             raise Skip('non-local or percent-encoded reference')
+        if k == 'patternProperties' and isinstance(v, dict):
+            for pat in v:
+                if not LITERAL_PATTERN.match(pat):
+                    raise Skip('patternProperties pattern outside the literal vocabulary')
         if k == 'dependencies' and d in ('d2019', 'd2020'):
             raise Skip('dependencies in 2019-09+')
         if k == 'definitions' and d in ('d2019', 'd2020'):
